@@ -24,6 +24,7 @@ const NetworkID = 1
 
 // Node is one full node.
 type Node struct {
+	opts  Options
 	Name  string
 	Key   crypto.PrivateKeyI
 	Dir   string
@@ -45,25 +46,15 @@ type Options struct {
 	Dir     string // data dir for genesis.json (a temp dir is created when empty)
 	// Tweak may adjust the configuration before the node is built
 	Tweak func(c *lib.Config)
-}
-
-// PebbleOptions mirrors store.NewStoreInMemory (block property collector is package-private, so the in-memory
-// constructor is used when fs == nil; with an explicit fs the options of store.NewStore are replicated as far as exported).
-func openDB(fs vfs.FS, l lib.LoggerI) (*pebble.DB, error) {
-	return pebble.Open("db", &pebble.Options{
-		FS:                    fs,
-		L0CompactionThreshold: 20,
-		L0StopWritesThreshold: 40,
-		FormatMajorVersion:    pebble.FormatColumnarBlocks,
-		Logger:                l,
-	})
+	// MemTableSize for stores on an explicit FS (0 = production value)
+	MemTableSize uint64
 }
 
 var dirMu sync.Mutex
 
 // New builds a node: genesis file -> store -> fsm -> controller (+ harness root-chain manager).
 func New(o Options) (*Node, error) {
-	n := &Node{Name: o.Name, Key: o.Key, Dir: o.Dir, FS: o.FS}
+	n := &Node{Name: o.Name, Key: o.Key, Dir: o.Dir, FS: o.FS, opts: o}
 	if n.Dir == "" {
 		d, err := os.MkdirTemp("", "verif-node-")
 		if err != nil {
@@ -95,7 +86,10 @@ func New(o Options) (*Node, error) {
 		o.Tweak(&c)
 	}
 	n.Cfg = c
-	log := lib.NewNullLogger()
+	var log lib.LoggerI = lib.NewNullLogger()
+	if os.Getenv("VERIF_NODE_LOG") != "" {
+		log = lib.NewDefaultLogger()
+	}
 	var st *store.Store
 	if n.FS == nil {
 		s, err := store.NewStoreInMemory(log, c)
@@ -104,11 +98,8 @@ func New(o Options) (*Node, error) {
 		}
 		st = s.(*store.Store)
 	} else {
-		db, err := openDB(n.FS, log)
-		if err != nil {
-			return nil, err
-		}
-		s, e := store.NewStoreWithDB(c, db, nil, log)
+		// the options of store.NewStore on the given file system (verif hook), optionally with small memtables
+		s, e := store.VerifNewStoreOnFS(c, n.FS, "db", o.MemTableSize, log)
 		if e != nil {
 			return nil, e
 		}
@@ -159,3 +150,28 @@ func (n *Node) Close() {
 
 // Height is the height of the next block.
 func (n *Node) Height() uint64 { return n.C.FSM.Height() }
+
+// Reopen closes the store and builds the node again on the same file system and data dir (a process restart).
+// Only nodes created on an explicit FS can be reopened.
+func (n *Node) Reopen() (*Node, error) {
+	if n.FS == nil {
+		return nil, fmt.Errorf("node %s has no persistent file system", n.Name)
+	}
+	func() {
+		defer func() { _ = recover() }()
+		n.C.Mempool.FSM.Discard()
+	}()
+	if err := n.Store.Close(); err != nil {
+		return nil, fmt.Errorf("close: %v", err)
+	}
+	o := n.opts
+	o.Genesis, o.Dir, o.FS = nil, n.Dir, n.FS
+	m, err := New(o)
+	if err != nil {
+		return nil, err
+	}
+	if err = m.Start(); err != nil {
+		return nil, err
+	}
+	return m, nil
+}
